@@ -119,7 +119,7 @@ def _is_chain(node):
     if isinstance(node, ast.Attribute):
         return _is_chain(node.value)
     if isinstance(node, ast.Subscript):
-        return _is_chain(node.value) and isinstance(node.slice, ast.Constant)
+        return _is_chain(node.value) and isinstance(node.slice, (ast.Constant, ast.Name))
     if isinstance(node, ast.Call) and isinstance(node.func, ast.Name) and node.func.id == 'len' and len(node.args) == 1:
         return _is_chain(node.args[0])
     return False
